@@ -11,15 +11,21 @@ from .. import datasets as D
 from .. import datasets_c10 as T
 
 ID = 'C10'
-RULE = ('histories over {save_spike_clusters, save_metadata(field, mapping with None entries, ints, floats, strings), '
-        'write a foreign TSV/CSV file (valid table or malformed: empty, header only, ragged, binary bytes, no cluster_id '
-        'column, blank first line, garbage text, a directory), save_spikes_subset_waveforms, close, reload} run on the real '
-        'TemplateModel over generated dataset directories with raw data (KS / ALF / labelled ALF names, with or without a '
-        'spike-cluster file, int16/float32/int32 raw files in 1-3 parts); the freshly loaded model is compared with the Coq '
-        'view after EVERY reload. quick: every history of length <= 3 over a 10-symbol alphabet (closed by a reload) on two '
-        'datasets, then 350 seeded random histories of length <= 8; thorough: every history of length <= 4 on one dataset and '
-        'of length <= 3 on three more, then 4000 sampled histories of length <= 10. Non-trivial = at least one save precedes an observed reload; distinct = distinct '
-        '(dataset, history).')
+RULE = ('histories over {save_spike_clusters (fresh vectors, the vector the instance in use was loaded with, a vector saved '
+        'before, the instance\'s own array updated in place), save_metadata(field, mapping with None entries, ints, floats, '
+        'strings; the mapping the instance loaded, the same mapping twice, empty and all-None mappings, the instance\'s own '
+        'dictionary), write a foreign TSV/CSV file (valid table or malformed: empty, header only, ragged, binary bytes, no '
+        'cluster_id column, blank first line, garbage text, a directory, a dangling symbolic link), '
+        'save_spikes_subset_waveforms (1 / 2 / 3 / 50 spikes per template), close, reload} run on the real TemplateModel over '
+        'generated dataset directories with raw data (KS / ALF / labelled ALF names, with or without a spike-cluster file, '
+        'int16/float32/int32 raw files in 1-3 parts; all spikes on one template; 22 raw parts with 0 / 1 / 2 spikes in the '
+        'kept chunks: subset stores of one spike or none; a store np.load rejects present before the first load); the freshly '
+        'loaded model is compared with the Coq view after EVERY reload. quick: every history of length <= 3 over two '
+        '10-symbol alphabets (closed by a reload; the second alphabet on a dataset with a loaded cluster_group.tsv: saves '
+        'equal to the load-time snapshots) on two datasets and of length <= 2 on a one-spike-store dataset, a corpus, then 300 '
+        'seeded random histories of length <= 8; thorough: every history of length <= 4 on one dataset and of length <= 3 on '
+        'five more, then 5000 sampled histories of length <= 10. Non-trivial = at least one save precedes an observed reload; '
+        'distinct = distinct (dataset, history).')
 EXHAUSTIVE = {'quick': True, 'thorough': True}
 CLAUSES = {
     1: 'an observed view differs from the Coq model PV.C10.Model.view',
@@ -43,7 +49,8 @@ ASSUMES = ['field names are identifiers other than cluster_id (and other than `i
            'no field is given values by two files that are visible at the same time (glob order is not determined)',
            'cluster ids in foreign files are not floats; cluster ids of save_spike_clusters fit int32; negative ids make the '
            'load fail (get_merge_map KeyError) and are outside the statement',
-           '>= 2 spikes, >= 2 templates, >= 2 samples per waveform, >= 2 selected subset spikes (phylib squeezes singleton axes)']
+           '>= 2 spikes, >= 2 templates, >= 2 samples per waveform (phylib squeezes singleton axes of the dataset files; the '
+           'subset store itself may hold one spike or none since fix-c10b)']
 TIMEOUT = {'quick': 30, 'thorough': 60}
 
 FOREIGN_NAMES = ['cluster_extra.tsv', 'labels.csv', 'junk.tsv', 'notes.csv', 'cluster_info.tsv', 'cluster_info.csv']
@@ -52,7 +59,7 @@ FOREIGN_NAMES = ['cluster_extra.tsv', 'labels.csv', 'junk.tsv', 'notes.csv', 'cl
 # ---- generator -----------------------------------------------------------------------------------------------------
 
 def _meta_op(rng, field, numkind=None, strings=T.WORDS):
-    return ['meta', field, T.rand_mapping(rng, strings=strings), numkind or rng.choice(['py', 'np'])]
+    return ['meta', field, T.rand_mapping(rng, strings=strings), numkind or rng.choice(['py', 'py', 'np', 'np', 'own'])]
 
 
 def _foreign_valid(rng, name, fields):
@@ -78,6 +85,59 @@ def _alphabet(rng, ds):
     ]
 
 
+# the mapping the second exhaustive dataset is LOADED with (file cluster_group.tsv present before the first load)
+M0 = [[0, ['s', 'good']], [1, ['i', 3]], [4, ['f', (2.5).hex()]], [6, ['i', 0]]]
+INIT_B = [['cluster_group.tsv', {'kind': 'text', 'text': 'cluster_id\tgroup\n0\tgood\n1\t3\n4\t2.5\n6\t0\n'}]]
+
+
+def _alphabet_b(rng, ds):
+    """Ten operations aimed at state an instance keeps between operations (self.spike_clusters and self.metadata are
+    snapshots taken at load time and never refreshed by a save): saving what the instance was loaded with, after
+    another save; the same payload twice; empty / all-None mappings.  Used on a dataset that has cluster_group.tsv = M0."""
+    ns = ds['sem']['n_spikes']
+    return [
+        ['clusters', T.rand_clusters(rng, ns, 'merge'), 'int64'],
+        ['clusters_loaded', 'int32'],                       # resolved by _resolve: the vector this instance loaded
+        ['meta', 'group', [[0, ['s', 'good']], [1, ['s', 'mua']], [2, None], [9, ['i', 1]]], 'py'],
+        ['meta', 'group', copy.deepcopy(M0), 'py'],         # equal to the loaded mapping
+        ['meta', 'group', [], 'py'],
+        ['meta', 'group', [[c, None] for c, _ in M0], 'np'],
+        _foreign_valid(rng, 'cluster_extra.tsv', ['depth', 'label']),
+        ['subset', 1, None],
+        ['close'],
+        ['reload'],
+    ]
+
+
+def _initial_clusters(ds):
+    sem = ds['sem']
+    return list(sem['spike_clusters'] if sem['spike_clusters'] is not None else sem['spike_templates'])
+
+
+def _resolve(ops, ds):
+    """Replaces ['clusters_loaded', dtype] by the concrete save of the assignments the model instance in use at that
+    point was loaded with (the initial ones, or those on disk at the last reload that succeeded)."""
+    ns = ds['sem']['n_spikes']
+    loaded = disk = _initial_clusters(ds)
+    out = []
+    for o in ops:
+        if o[0] == 'clusters_loaded':
+            o = ['clusters', list(loaded), o[1]]
+        if o[0] == 'clusters':
+            disk = o[1]
+            if o[2] == 'inplace':
+                if len(o[1]) == ns and all(-2 ** 31 <= c < 2 ** 31 for c in o[1]):
+                    loaded = o[1]
+                else:
+                    o = [o[0], o[1], 'int64']           # cannot be written into the int32 copy of length ns
+                    out.append(o)
+                    continue
+        elif o[0] == 'reload' and len(disk) == ns and all(0 <= c < 2 ** 31 for c in disk):
+            loaded = disk
+        out.append(o)
+    return out
+
+
 def _random_history(rng, ds, n):
     ns = ds['sem']['n_spikes']
     ops = []
@@ -89,17 +149,35 @@ def _random_history(rng, ds, n):
         k = rng.random()
         if k < 0.14:
             kind = None
-            if rng.random() < 0.04:
+            earlier = [o for o in ops if o[0] == 'clusters']
+            r = rng.random()
+            if r < 0.22:
+                ops.append(['clusters_loaded', rng.choice(['int32', 'int64'])])        # an undo within one session
+            elif r < 0.34 and earlier:
+                ops.append(copy.deepcopy(rng.choice(earlier)))                         # a vector saved before, again
+            elif rng.random() < 0.04:
                 v = [rng.randint(-2, 3) for _ in range(ns)]
                 ops.append(['clusters', v, 'int64'])
             elif rng.random() < 0.04:
                 ops.append(['clusters', T.rand_clusters(rng, ns)[:ns - 1], 'int32'])     # wrong length: unloadable
             else:
-                ops.append(['clusters', T.rand_clusters(rng, ns, kind), rng.choice(['int32', 'int64', 'uint32', 'uint16x'])])
+                ops.append(['clusters', T.rand_clusters(rng, ns, kind),
+                            rng.choice(['int32', 'int64', 'uint32', 'uint16x', 'inplace'])])
         elif k < 0.38:
             f = rng.choice(T.FIELDS + (['info'] if rng.random() < 0.05 else []))
             strings = T.WORDS + ([''] if rng.random() < 0.15 else [])
-            ops.append(_meta_op(rng, f, strings=strings))
+            earlier = [o for o in ops if o[0] == 'meta']
+            r = rng.random()
+            if r < 0.2 and earlier:
+                o = copy.deepcopy(rng.choice(earlier))      # the same (field, mapping) again: equals what a reload
+                o[3] = rng.choice(['py', 'np', 'own'])      # in between loaded, or what the previous save wrote
+                ops.append(o)
+            elif r < 0.27:
+                ops.append(['meta', f, [], 'py'])
+            elif r < 0.34:
+                ops.append(['meta', f, [[c, None] for c in rng.sample(range(9), rng.randint(1, 4))], 'py'])
+            else:
+                ops.append(_meta_op(rng, f, strings=strings))
         elif k < 0.52:
             name = rng.choice(FOREIGN_NAMES)
             ops.append(_foreign_valid(rng, name, foreign_fields[name]))
@@ -112,13 +190,13 @@ def _random_history(rng, ds, n):
             f = rng.choice(T.FIELDS)
             ops.append(_foreign_valid(rng, 'cluster_%s.tsv' % f, [f]))
         elif k < 0.78:
-            ops.append(['subset', rng.choice([2, 3, 50]), rng.choice([None, 2, 16])])
+            ops.append(['subset', rng.choice([1, 2, 3, 50]), rng.choice([None, 2, 16])])
         elif k < 0.86:
             ops.append(['close'])
         else:
             ops.append(['reload'])
     ops.append(['reload'])
-    return _fix_ops(ops, ns)
+    return _fix_ops(_resolve(ops, ds), ns)
 
 
 def _scan(ops, ns):
@@ -152,8 +230,11 @@ def _use_after_close(ops, ns):
     return any(bad for _, bad in _scan(ops, ns))
 
 
-def _case(ds, ops, init=None):
-    return {'kind': 'hist', 'inp': {'ds': ds, 'init': init or [], 'ops': ops}}
+def _case(ds, ops, init=None, init_store=None):
+    inp = {'ds': ds, 'init': init or [], 'ops': ops}
+    if init_store:
+        inp['init_store'] = init_store       # 'truncated' | 'garbage': see datasets_c10.write_broken_store
+    return {'kind': 'hist', 'inp': inp}
 
 
 def _datasets(rng, n, tier):
@@ -162,7 +243,13 @@ def _datasets(rng, n, tier):
               dict(names='alf', label='probe00', write_clusters=True, raw=True, raw_dtype='float32'),
               dict(names='alf', label='', write_clusters=True, raw=True, raw_dtype='int32'),
               dict(names='ks', write_clusters=True, raw=False),
-              dict(names='alf', label='probe00', write_clusters=False, raw=True)]
+              dict(names='alf', label='probe00', write_clusters=False, raw=True),
+              # subset stores of exactly one spike (fix-c10b): all spikes on one template / 22 raw chunks, one spike kept
+              dict(names='ks', raw=True, layout='unused', n_templates=2, n_spikes=4),
+              dict(names='ks', raw=True, layout=('parts', 1), n_spikes=4),
+              dict(names='alf', raw=True, layout=('parts', 0), n_spikes=3),
+              dict(names='alf', raw=True, layout='unused', n_templates=3),
+              dict(names='ks', raw=True, layout=('parts', 2), n_spikes=5)]
     for i in range(n):
         out.append(T.make_dataset(rng, **(forced[i] if i < len(forced) else {})))
     return out
@@ -170,12 +257,13 @@ def _datasets(rng, n, tier):
 
 def generate(tier, rng):
     cases = []
-    pool = _datasets(rng, {'quick': 5, 'thorough': 12, 'search': 8}[tier], tier)
+    pool = _datasets(rng, {'quick': 8, 'thorough': 16, 'search': 10}[tier], tier)
     # corpus -----------------------------------------------------------------------------------------------
     ds0 = pool[0]
     ns0 = ds0['sem']['n_spikes']
     g1 = ['meta', 'group', [[0, ['s', 'good']], [1, ['s', 'mua']], [2, None]], 'py']
     g2 = ['meta', 'group', [[1, ['s', 'noise']]], 'py']
+    cB, cC = ['clusters', [5, 0] * ns0, 'int64'], ['clusters', [1, 2, 3] * ns0, 'int32']
     corpus = [
         [g1, ['reload'], g2, ['reload']],                                         # overwrite, not merge
         [g1, ['meta', 'group', [], 'py'], ['reload']],                            # an empty last mapping
@@ -190,6 +278,23 @@ def generate(tier, rng):
         [['foreign', 'cluster_info.tsv', {'kind': 'text', 'text': 'cluster_id\tgroup\n0\tzzz\n'}], g1, ['reload']],
         [g1, ['foreign', 'cluster_group.tsv', {'kind': 'text', 'text': 'cluster_id\tgroup\n7\tforeign\n'}], ['reload'], g2, ['reload']],
         [['foreign', 'labels.csv', {'kind': 'text', 'text': 'cluster_id,ks_label\n3,good\n3,later\n,lost\n4,\n'}], ['reload']],
+        # identity-sensitive histories on ONE instance (seeded change C10-m1: a save equal to the load-time snapshot
+        # self.spike_clusters was skipped): B then the loaded vector (an undo); the same after a reload; twice; B A B
+        [cB, ['clusters_loaded', 'int64'], ['close'], ['reload']],
+        [cB, ['reload'], cC, ['clusters_loaded', 'int32'], ['reload']],
+        [cB, copy.deepcopy(cB), ['reload'], ['clusters_loaded', 'int32'], ['reload']],
+        [cB, ['clusters_loaded', 'int32'], copy.deepcopy(cB), ['reload']],
+        [['clusters_loaded', 'int32'], cB, ['clusters_loaded', 'uint32'], ['clusters_loaded', 'int64'], ['reload']],
+        [['clusters', [5, 0] * ns0, 'inplace'], ['reload'], ['clusters', [1, 2, 3] * ns0, 'inplace'], ['close'], ['reload']],
+        [cB, ['clusters', [1, 2, 3] * ns0, 'inplace'], ['clusters_loaded', 'int64'], copy.deepcopy(cB), ['reload']],
+        [['meta', 'group', [[0, ['s', 'good']], [1, ['s', 'mua']], [2, None]], 'own'], ['reload'],
+         ['meta', 'group', [[1, ['s', 'noise']]], 'own'], ['meta', 'quality', [[1, ['i', 2]]], 'own'], ['reload']],
+        # ... and for self.metadata: a mapping equal to the loaded one after a different one; twice; empty; all None
+        [g1, ['reload'], g2, copy.deepcopy(g1), ['reload']],
+        [g1, ['reload'], copy.deepcopy(g1), ['reload'], g2, copy.deepcopy(g2), ['reload']],
+        [g1, ['reload'], ['meta', 'group', [], 'py'], ['reload'], copy.deepcopy(g1), ['reload']],
+        [g1, ['reload'], ['meta', 'group', [[0, None], [1, None], [2, None]], 'py'], ['reload']],
+        [g1, g2, copy.deepcopy(g1), ['meta', 'quality', [[0, ['s', 'good']], [1, ['s', 'mua']]], 'py'], ['reload']],
     ]
     for ds in pool[:3]:
         for h in corpus:
@@ -198,30 +303,52 @@ def generate(tier, rng):
                 if o[0] == 'clusters':
                     n = ds['sem']['n_spikes']
                     o[1] = (o[1] * n)[:n] if len(o[1]) != n else o[1]
-            cases.append(_case(ds, h))
+            cases.append(_case(ds, _resolve(h, ds)))
+    # subset stores of one spike / no spike (defect repaired on fix-c10b: the reloaded store was squeezed)
+    for ds in pool[5:]:
+        for h in ([['subset', 1, None], ['reload']],
+                  [['subset', 1, 16], ['close'], ['reload'], ['subset', 50, None], ['reload']],
+                  [['subset', 50, None], ['reload'], ['subset', 1, None], ['subset', 1, None], ['reload']]):
+            cases.append(_case(ds, copy.deepcopy(h)))
+    # a dataset that comes with a subset store np.load rejects (interrupted extraction): skipped, then replaced
+    for ds, kind in ((pool[0], 'truncated'), (pool[2], 'garbage'), (pool[3], 'truncated')):
+        for h in ([['reload']], [['subset', 2, None], ['reload']],
+                  [copy.deepcopy(g1), ['close'], ['reload'], ['subset', 1, None], ['subset', 3, 16], ['reload']]):
+            cases.append(_case(ds, copy.deepcopy(h), None, kind))
+    # a dangling symbolic link among the metadata files
+    cases.append(_case(pool[0], [['foreign', 'labels.csv', {'kind': 'symlink'}], copy.deepcopy(g1), ['reload'],
+                                 _foreign_valid(rng, 'labels.csv', ['ks_label']), ['reload']]))
     # a dataset that already has metadata files
     init = [['cluster_group.tsv', {'kind': 'text', 'text': 'cluster_id\tgroup\n0\tgood\n2\tmua\n'}],
             ['cluster_info.tsv', {'kind': 'text', 'text': 'cluster_id\tgroup\tdepth\n0\tbad\t10.5\n'}],
             ['old.csv', {'kind': 'text', 'text': 'cluster_id,purity\n1,0.5\n'}]]
     cases.append(_case(pool[1], [['reload'], g2, ['reload']], init))
+    # the loaded mapping saved again after another one, without a reload in between (self.metadata is a load-time snapshot)
+    g0 = ['meta', 'group', [[0, ['s', 'good']], [2, ['s', 'mua']]], 'py']
+    cases.append(_case(pool[1], [g2, g0, ['reload']], init))
+    cases.append(_case(pool[2], [g0, ['reload'], g2, copy.deepcopy(g0), ['close'], ['reload']], init))
     if tier == 'search':
         for _ in range(1500):
             ds = rng.choice(pool)
             cases.append(_case(ds, _random_history(rng, ds, rng.randint(1, 8))))
         return [_repair(c) for c in cases]
     # exhaustive small scope ------------------------------------------------------------------------------------
-    scopes = [(3, pool[0]), (3, pool[1])] if tier == 'quick' else [(4, pool[0]), (3, pool[1]), (3, pool[2]), (3, pool[4])]
-    for L, ds in scopes:
-        alpha = _alphabet(rng, ds)
+    A, B = _alphabet, _alphabet_b
+    scopes = ([(3, pool[0], A, None), (3, pool[1], B, INIT_B), (2, pool[5], B, INIT_B)] if tier == 'quick' else
+              [(4, pool[0], A, None), (3, pool[1], B, INIT_B), (3, pool[2], A, None), (3, pool[4], A, None),
+               (3, pool[5], B, INIT_B), (3, pool[6], B, None)])
+    for L, ds, mk, init in scopes:
+        alpha = mk(rng, ds)
         for n in range(1, L + 1):
             for h in itertools.product(range(len(alpha)), repeat=n):
                 ops = [copy.deepcopy(alpha[i]) for i in h]
                 if ops[-1][0] != 'reload':
                     ops.append(['reload'])
+                ops = _resolve(ops, ds)
                 if not _use_after_close(ops, ds['sem']['n_spikes']):
-                    cases.append(_case(ds, ops))
+                    cases.append(_case(ds, ops, copy.deepcopy(init)))
     # random stream -------------------------------------------------------------------------------------------------
-    nrand, lmax = (350, 7) if tier == 'quick' else (4000, 9)
+    nrand, lmax = (300, 7) if tier == 'quick' else (5000, 9)
     for _ in range(nrand):
         ds = rng.choice(pool)
         cases.append(_case(ds, _random_history(rng, ds, rng.randint(2, lmax))))
@@ -235,6 +362,7 @@ def _repair(case):
     for o in case['inp']['ops']:
         if o[0] == 'clusters' and len(o[1]) not in (n, n - 1):
             o[1] = (o[1] * n)[:n]
+    case['inp']['ops'] = _resolve(case['inp']['ops'], ds)
     return case
 
 
@@ -290,17 +418,27 @@ def _view(m, d, base):
         md[str(f)] = sorted(([_val(k), _val(v)] for k, v in mp.items()), key=repr)
     sw = m.spike_waveforms
     store = lookup = None
+    lookup_ok = True
     if sw is not None:
         ids = [int(x) for x in np.atleast_1d(sw.spike_ids)]
-        store = {'ids': ids, 'ch': _ints(np.asarray(sw.spike_channels)), 'w': _ints(np.array(sw.waveforms)),
-                 'wshape': [int(s) for s in sw.waveforms.shape]}
-        lk = m.get_waveforms(np.array(ids, dtype=np.int64), None)
-        lookup = _ints(lk)
+        ch, w = np.asarray(sw.spike_channels), np.array(sw.waveforms)
+        if np.ndim(sw.spike_ids) == 1 and ch.ndim == 2 and w.ndim == 3:
+            store = {'ids': ids, 'ch': _ints(ch), 'w': _ints(w), 'wshape': [int(s) for s in w.shape]}
+        else:       # a store that lost an axis: not (ids, one channel row per spike, one window per spike)
+            store = {'ids': ids, 'ch': [], 'w': [], 'wshape': [int(s) for s in w.shape]}
+        try:
+            lk = np.asarray(m.get_waveforms(np.array(ids, dtype=np.int64), None))
+            if lk.ndim != 3:
+                raise ValueError('get_waveforms returned %d axes' % lk.ndim)
+            lookup = _ints(lk)
+        except Exception:  # noqa
+            lookup_ok = False
     now = D.listing(d)
     changed = sorted(k for k in set(base) | set(now) if not _is_curation(k) and base.get(k) != now.get(k))
     return {'clusters': [int(x) for x in m.spike_clusters], 'cdtype': str(m.spike_clusters.dtype), 'meta': md,
             'templates': [int(x) for x in m.spike_templates], 'samples': [int(x) for x in m.spike_samples],
-            'times': [D.tok(float(x)) for x in m.spike_times], 'store': store, 'lookup': lookup, 'changed': changed}
+            'times': [D.tok(float(x)) for x in m.spike_times], 'store': store, 'lookup': lookup, 'lookup_ok': lookup_ok,
+            'changed': changed}
 
 
 def run_case(case):
@@ -323,6 +461,12 @@ def run_case(case):
             with os.fdopen(w, 'w') as f:
                 json.dump(out, f)
             code = 0
+            if os.environ.get('VT_COVERAGE'):     # developer tool: os._exit below would drop the child's line data
+                from .. import pool
+                cov = getattr(pool, '_COV', None)
+                if cov is not None:
+                    cov.stop()
+                    cov.save()
         finally:
             os._exit(code)
     os.close(w)
@@ -355,6 +499,8 @@ def _run_case(case):
         D.materialise(ds, d)
         for name, spec in inp.get('init', []):
             T.write_foreign(d, name, spec)
+        if inp.get('init_store'):
+            T.write_broken_store(d, inp['init_store'], ds['sem']['n_samples_wf'])
         params = os.path.join(d, 'params.py')
         m = load_model(params)
         base = D.listing(d)
@@ -375,8 +521,19 @@ def _run_case(case):
                 views.append(['view', _view(m, d, base)])
                 continue
             try:
-                if o[0] == 'clusters':
+                if o[0] == 'clusters' and o[2] == 'inplace':
+                    # manual clustering updates the in-memory copy (see the NOTE in _load_spike_clusters) and saves
+                    # that very array object
+                    m.spike_clusters[:] = np.array(o[1], dtype=np.int64)
+                    m.save_spike_clusters(m.spike_clusters)
+                elif o[0] == 'clusters':
                     m.save_spike_clusters(np.array(o[1], dtype=o[2]))
+                elif o[0] == 'meta' and o[3] == 'own':
+                    # the instance's own dictionary, updated and handed back
+                    own = m.metadata.setdefault(o[1], {})
+                    own.clear()
+                    own.update({int(c): _pyval(v, 'py') for c, v in o[2]})
+                    m.save_metadata(o[1], own)
                 elif o[0] == 'meta':
                     m.save_metadata(o[1], {int(c): _pyval(v, o[3]) for c, v in o[2]})
                 elif o[0] == 'foreign':
@@ -483,7 +640,12 @@ def encode(case, obs):
         q.zl(sem['spike_templates']), q.zl(sem['spike_samples']), q.lst(first['times'], D.coq_tok), raw, chunks,
         q.z(first['nsw']), q.zll(first['best']))
     files = q.lst(inp.get('init', []), lambda nf: '(%s, %s)' % (_fname(nf[0]), _mfile(nf[1])))
-    d0 = '(mkdisk %s %s None %s)' % (q.zl(clusters), files, rest)
+    sub0 = 'None'
+    if inp.get('init_store'):
+        # spike ids and channel table as written by write_broken_store; a waveform file np.load rejects
+        shape = '[2; %d; 12]' % sem['n_samples_wf'] if inp['init_store'] == 'truncated' else '[]'
+        sub0 = '(Some (mksub [0; 1] %s (mknpy %s F64 F64 [])))' % (q.zll([[k % 2 for k in range(12)]] * 2), shape)
+    d0 = '(mkdisk %s %s %s %s)' % (q.zl(clusters), files, sub0, rest)
     ops = []
     for k, o in enumerate(inp['ops']):
         if o[0] == 'clusters':
@@ -511,9 +673,9 @@ def encode(case, obs):
         meta = q.lst(sorted(o['meta'].items()), lambda fm: '(%s, %s)' % (
             _s(fm[0]), q.lst(fm[1], lambda kv: '(%s, %s)' % (_value(kv[0]), _value(kv[1])))))
         lookup = 'None' if o['lookup'] is None else '(Some %s)' % q.lst(o['lookup'], q.zll)
-        vs.append('(OView (mkoview %s %s %s %s %s %s %s %s))' % (
+        vs.append('(OView (mkoview %s %s %s %s %s %s %s %s %s))' % (
             q.zl(o['clusters']), meta, q.zl(o['templates']), q.zl(o['samples']), q.lst(o['times'], D.coq_tok),
-            _store(o['store']), lookup, q.lst(o['changed'], q.s)))
+            _store(o['store']), lookup, 'true' if o.get('lookup_ok', True) else 'false', q.lst(o['changed'], q.s)))
     cobs = '(ObsHist %s %s)' % (q.lst(vs), q.opt(crash_at))
     return cin, cobs
 
@@ -552,6 +714,16 @@ def dist(case, obs):
             out.append('op_raised=%s:%s' % (ops[obs[4]][0], obs[5][0]))
         if any(v[0] == 'view' and v[1]['store'] is not None for v in obs[2]):
             out.append('store_loaded')
+        for v in obs[2]:
+            if v[0] == 'view' and v[1]['store'] is not None and len(v[1]['store']['ids']) < 2:
+                out.append('store_spikes=%d' % len(v[1]['store']['ids']))
+    if case['inp'].get('init_store'):
+        out.append('broken_store_at_start=' + case['inp']['init_store'])
+    same = [o for i, o in enumerate(ops) if o[0] in ('clusters', 'meta') and any(p[:3] == o[:3] for p in ops[:i])]
+    if same:
+        out.append('payload_saved_again=' + same[0][0])
+    if any(o[0] == 'clusters' and o[1] == _initial_clusters(ds) for o in ops):
+        out.append('initial_clusters_saved')
     else:
         out.append('crash=' + str(obs[1]))
     return out
@@ -586,6 +758,10 @@ def _shrink(case):
     if inp.get('init'):
         c = copy.deepcopy(inp)
         c['init'] = []
+        yield {'kind': 'hist', 'inp': c}
+    if inp.get('init_store'):
+        c = copy.deepcopy(inp)
+        del c['init_store']
         yield {'kind': 'hist', 'inp': c}
 
 
